@@ -28,3 +28,7 @@ CHECKS["C06"] = ("exploration", "exhaustive enumeration of boundary values x pos
    "Complete product: 9 boundary values in every position of lists of 1-8 operands (all pairs for length 2) for .byte/.word/implicit lists/.dword at both address parities, spelled as constants and as later-defined symbols; every character of bk/koi8-r/latin-1/cp866 (and the utf-8 BMP: sampled in quick, complete in thorough) under each quote, every escape incl. all 256 \\xHH, <n> for -1..256, all short mixed strings; .blkb/.blkw counts; .even/.odd at both parities; .align for every modulus 1-64 at every residue and two bases. Accept/reject boundaries are bracketed completely; refused inputs must fail with an error.",
    "Trusted: Python codecs as charset definitions (ASCII/KOI8-R for bk). Content of operand-less directives is not demanded.",
    "DESIGN.md 5/C06")
+CHECKS["C02"] = ("model_checking", "explicit-state breadth-first search over statement sequences (operation sequences) on the real assembler, with a hook trace invariant and a reference layout oracle on every explored program",
+   "All statement sequences up to depth 3 (quick) / 4 (thorough) over a 35-statement alphabet that contains every size path (fixed, known-later, address-dependent, skips, repeats with varying iteration sizes, inserted files, nested includes), each as a fresh run under up to 7 link regimes (base defaulted, set first at even/odd/low/high addresses, set last), every ordered 1-3 tuple of a 6-file alphabet, and the 21 practice programs. On every error-free run the model-free hook invariants (contiguity, bytes-at-address, image length, label = address of following bytes) are checked and the image incl. a label probe table is compared with the reference layout. The bound (depth, alphabet, regimes) is completed exhaustively; nothing is sampled.",
+   "Trusted: the 4-line add-only hook (MANIFEST.hooks), pdpmc/alphabet.py reference sizes. Programs that report errors (e.g. word data at an odd address) are outside the property's premise: counted, not judged.",
+   "DESIGN.md 5/C02")
